@@ -26,6 +26,9 @@ type c09Case struct {
 	// Trace > 0: the batch runs on a fresh (cold) small-corpus classifier with a trace configuration installed
 	// (wildcard license filters, thread-safe Tracer), so the tracing paths are exercised concurrently as well.
 	Trace int `json:"trace,omitempty"`
+	// Cold: as above but without tracing: state that a classifier fills in lazily on first use is only exposed while
+	// no Match has run on it yet.
+	Cold bool `json:"cold,omitempty"`
 }
 
 var c09TraceHits int64
@@ -58,8 +61,11 @@ func c09Setup() {
 
 func c09Gen(t *rapid.T) interface{} {
 	c := &c09Case{MaxProcs: lib.PickInt(t, []int{2, 4, 16}, "maxprocs")}
-	if lib.IntN(t, 0, 1, "withTrace") == 0 {
+	switch lib.IntN(t, 0, 2, "classifierState") {
+	case 0:
 		c.Trace = lib.IntN(t, 1, 8, "trace")
+	case 1:
+		c.Cold = true
 	}
 	np := lib.IntN(t, 3, 6, "npool")
 	for i := 0; i < np; i++ {
@@ -72,7 +78,7 @@ func c09Gen(t *rapid.T) interface{} {
 		c.Pool = append(c.Pool, recipe{Segs: []seg{s}})
 	}
 	g := lib.PickInt(t, []int{2, 4, 8, 16, 32, 64}, "goroutines")
-	if c.Trace > 0 && g < 8 {
+	if (c.Trace > 0 || c.Cold) && g < 8 {
 		g = 16
 		c.MaxProcs = 16
 	}
@@ -96,14 +102,17 @@ func c09Check(ci interface{}) lib.Outcome {
 	c09Setup()
 	shared := c09Shared
 	var traceSel corpusSel
-	if c.Trace > 0 {
+	cold := c.Trace > 0 || c.Cold
+	if cold {
 		// cold classifier over a small corpus: the documents of the pool plus a fixed handful
 		traceSel = smallFixedCorpus()
 		for _, r := range c.Pool {
 			traceSel.Docs = append(traceSel.Docs, r.docs()...)
 		}
 		shared = buildClassifier(0.8, traceSel.files())
-		shared.SetTraceConfiguration(c09TraceConfig(c.Trace))
+		if c.Trace > 0 {
+			shared.SetTraceConfiguration(c09TraceConfig(c.Trace))
+		}
 	}
 	inputs := make([][]byte, len(c.Pool))
 	ref := make([]string, len(c.Pool))
@@ -111,7 +120,7 @@ func c09Check(ci interface{}) lib.Outcome {
 	for i, r := range c.Pool {
 		inputs[i] = r.build(c09Ref)
 		var res Results
-		if c.Trace > 0 {
+		if cold {
 			sel := smallFixedCorpus()
 			for _, r := range c.Pool {
 				sel.Docs = append(sel.Docs, r.docs()...)
@@ -140,13 +149,15 @@ func c09Check(ci interface{}) lib.Outcome {
 	// Races on lazily filled state are only observable while the state is cold, and the detector needs the two
 	// accesses to be close in time: trace batches are repeated on several fresh classifiers.
 	rounds := 1
-	if c.Trace > 0 {
+	if cold {
 		rounds = 5
 	}
 	for round := 0; round < rounds && first == nil; round++ {
-		if c.Trace > 0 && round > 0 {
+		if cold && round > 0 {
 			shared = buildClassifier(0.8, traceSel.files())
-			shared.SetTraceConfiguration(c09TraceConfig(c.Trace))
+			if c.Trace > 0 {
+				shared.SetTraceConfiguration(c09TraceConfig(c.Trace))
+			}
 		}
 		cur := shared
 		var wg sync.WaitGroup
@@ -195,11 +206,14 @@ func c09Classes(c *c09Case) []string {
 	if c.Trace > 0 {
 		out = append(out, "tracing-enabled(cold classifier)")
 	}
+	if c.Cold {
+		out = append(out, "cold-classifier")
+	}
 	return out
 }
 
 func TestVerif_C09(t *testing.T) {
 	lib.Run(t, lib.Spec{ID: "C09", Part: "concurrent-match",
-		Rule: "batches: 2-64 goroutines released by one barrier, each issuing 2-6 Match/MatchFrom calls on a shared full-corpus classifier over a pool of 3-6 (mostly edited) corpus documents and scenario files, GOMAXPROCS in {2,4,16}; half of the batches run (5 rounds, >= 8 goroutines) on fresh small-corpus classifiers with a trace configuration (wildcard license filters, thread-safe Tracer) installed; binary built with -race (any report = violation); every result compared with the sequential reference from a separate classifier instance; non-trivial = at least 2 goroutines and a pool input with a fuzzy match (the diff path that touches shared corpus data)",
+		Rule: "batches: 2-64 goroutines released by one barrier, each issuing 2-6 Match/MatchFrom calls on a shared full-corpus classifier over a pool of 3-6 (mostly edited) corpus documents and scenario files, GOMAXPROCS in {2,4,16}; two thirds of the batches run (5 rounds, >= 8 goroutines) on fresh (cold) small-corpus classifiers, half of those with a trace configuration (wildcard license filters, thread-safe Tracer) installed; binary built with -race (any report = violation); every result compared with the sequential reference from a separate classifier instance; non-trivial = at least 2 goroutines and a pool input with a fuzzy match (the diff path that touches shared corpus data)",
 		New:  func() interface{} { return &c09Case{} }, Gen: c09Gen, Check: c09Check})
 }
